@@ -84,6 +84,9 @@ func (c *tcpConsumer) Consume(p Pack) {
 		defer buffers.Put(buf)
 
 		p2.Write(buf, c.transport.Channels[:])
+		if buf.Len() == 0 { // 该通道未订阅，没有数据；不发送空消息
+			return
+		}
 
 		c.lockW.Lock()
 		_, err = c.wsconn.Write(buf.Bytes())
